@@ -110,7 +110,95 @@ let oracle_c09 (impl : string) : string =
   | "CRASH" :: _ -> "FAIL:process crashed"
   | _ -> "FAIL:unexpected observation"
 
+(* constraints on the observations of a tree history, written by the generator from the
+   property text: a trailing field "Q:c1;c2;..." with
+     eq:i:j  ok:i  err:i  line:i:N  path:i:HEX  msgsub:i:HEX  out:i:HEX
+     body:i:HEX (response body contains)  nobody:i:HEX (does not contain)  bodyeq:i:j  nopanic *)
+let contains_sub (s : string) (sub : string) : bool =
+  let n = String.length s and m = String.length sub in
+  if m = 0 then true
+  else begin
+    let found = ref false in
+    let i = ref 0 in
+    while (not !found) && !i + m <= n do
+      if String.sub s !i m = sub then found := true;
+      incr i
+    done;
+    !found
+  end
+
+let oracle_constraints (q : string) (impl : string) : string =
+  match split_on '\t' impl with
+  | "HANG" :: _ -> "FAIL:did not return (hang)"
+  | "CRASH" :: _ -> "FAIL:process crashed"
+  | "PANIC" :: _ -> "FAIL:panic"
+  | [ "TREE"; obs ] -> (
+      let ops = Array.of_list (split_on '|' obs) in
+      let get i = if i < Array.length ops then ops.(i) else "MISSING" in
+      let words i = split_on ' ' (get i) in
+      let is_err i = match words i with "ERR" :: _ -> true | "RESP" :: _ :: "ERR" :: _ -> true | _ -> false in
+      let is_ok i = match words i with "OK" :: _ -> true | [ "RESP"; _; "OK" ] -> true | _ -> false in
+      let err_fields i =
+        match words i with
+        | [ "ERR"; l; p; m ] -> Some (l, unhex p, unhex m)
+        | [ "RESP"; _; "ERR"; l; p; m ] -> Some (l, unhex p, unhex m)
+        | _ -> None
+      in
+      let body i = match words i with "RESP" :: b :: _ -> Some (unhex b) | _ -> None in
+      let check c =
+        match split_on ':' c with
+        | [ "eq"; i; j ] ->
+            if get (int_of_string i) = get (int_of_string j) then None
+            else Some ("operations " ^ i ^ " and " ^ j ^ " must agree: " ^ get (int_of_string i) ^ " vs " ^ get (int_of_string j))
+        | [ "ok"; i ] -> if is_ok (int_of_string i) then None else Some ("operation " ^ i ^ " must succeed: " ^ get (int_of_string i))
+        | [ "err"; i ] -> if is_err (int_of_string i) then None else Some ("operation " ^ i ^ " must fail: " ^ get (int_of_string i))
+        | [ "line"; i; n ] -> (
+            match err_fields (int_of_string i) with
+            | Some (l, _, _) when l = n -> None
+            | Some (l, _, _) -> Some ("operation " ^ i ^ " must report line " ^ n ^ ", reports " ^ l)
+            | None -> Some ("operation " ^ i ^ " must fail with line " ^ n ^ ": " ^ get (int_of_string i)))
+        | [ "path"; i; h ] -> (
+            match err_fields (int_of_string i) with
+            | Some (_, p, _) when p = unhex h -> None
+            | Some (_, p, _) -> Some ("operation " ^ i ^ " must report path " ^ unhex h ^ ", reports " ^ p)
+            | None -> Some ("operation " ^ i ^ " must fail with a path: " ^ get (int_of_string i)))
+        | [ "msgsub"; i; h ] -> (
+            match err_fields (int_of_string i) with
+            | Some (_, _, m) when contains_sub m (unhex h) -> None
+            | Some (_, _, m) -> Some ("operation " ^ i ^ " message must mention " ^ unhex h ^ ": " ^ m)
+            | None -> Some ("operation " ^ i ^ " must fail: " ^ get (int_of_string i)))
+        | [ "out"; i; h ] -> (
+            match words (int_of_string i) with
+            | [ "OK"; o ] when o = h -> None
+            | [ "OK" ] when h = "-" -> None
+            | _ -> Some ("operation " ^ i ^ " must render " ^ h ^ ": " ^ get (int_of_string i)))
+        | [ "body"; i; h ] -> (
+            match body (int_of_string i) with
+            | Some b when contains_sub b (unhex h) -> None
+            | _ -> Some ("response " ^ i ^ " body must contain " ^ unhex h))
+        | [ "nobody"; i; h ] -> (
+            match body (int_of_string i) with
+            | Some b when not (contains_sub b (unhex h)) -> None
+            | Some _ -> Some ("response " ^ i ^ " body must not contain " ^ unhex h)
+            | None -> Some ("operation " ^ i ^ " is not a response: " ^ get (int_of_string i)))
+        | [ "bodyeq"; i; j ] ->
+            if body (int_of_string i) = body (int_of_string j) && body (int_of_string i) <> None then None
+            else Some ("responses " ^ i ^ " and " ^ j ^ " must have the same body")
+        | [ "nopanic" ] ->
+            if Array.exists (fun o -> starts_with "PANIC" o) ops then Some "an operation panicked" else None
+        | _ -> Some ("unknown constraint " ^ c)
+      in
+      let cs = List.filter (fun c -> c <> "") (split_on ';' q) in
+      match List.filter_map check cs with [] -> "ok" | r :: _ -> "FAIL:" ^ r)
+  | _ -> "FAIL:unexpected observation"
+
+let constraints_field (f : string list) : string option =
+  List.fold_left (fun acc x -> if starts_with "Q:" x then Some (String.sub x 2 (String.length x - 2)) else acc) None f
+
 let oracle (f : string list) (impl : string) : string =
+  match constraints_field f with
+  | Some q -> oracle_constraints q impl
+  | None ->
   match f with
   | id :: _ when starts_with "C08" id -> oracle_c08 id impl
   | id :: _ when starts_with "C09" id -> oracle_c09 impl
